@@ -37,8 +37,9 @@ type pcase struct {
 }
 
 type step struct {
-	Send   string `json:"send"`
-	Expect bool   `json:"expect"`
+	Send    string `json:"send"`
+	Expect  bool   `json:"expect"`
+	Replies int    `json:"replies"` // read this many replies after sending (burst mode)
 }
 
 func b64(s string) string { return base64.RawStdEncoding.EncodeToString([]byte(s)) }
@@ -95,6 +96,8 @@ func msgText(m string) (string, bool) {
 		return "-> confirm " + b64("Yes") + " " + b64("No") + "\n" + body("Proceed?"), true
 	case "confirm0":
 		return "-> confirm\n" + body("Proceed?"), true
+	case "confirm3":
+		return "-> confirm " + b64("Yes") + " " + b64("No") + " " + b64("Maybe") + "\n" + body("Proceed?"), true
 	case "confirm_bad64":
 		return "-> confirm %%%\n" + body("Proceed?"), true
 	case "unknown":
@@ -163,7 +166,7 @@ func mkUI(c *pcase) *plugin.ClientUI {
 	}
 	switch c.UI.Req {
 	case "ok":
-		ui.RequestValue = func(name, prompt string, secret bool) (string, error) { return "the-value", nil }
+		ui.RequestValue = func(name, prompt string, secret bool) (string, error) { return requestValue(c), nil }
 	case "err":
 		ui.RequestValue = func(name, prompt string, secret bool) (string, error) { return "", errors.New("no input") }
 	}
@@ -176,6 +179,13 @@ func mkUI(c *pcase) *plugin.ClientUI {
 		ui.Confirm = func(name, prompt, yes, no string) (bool, error) { return false, errors.New("no tty") }
 	}
 	return ui
+}
+
+// requestValue: what the application answers to request-secret/request-public; the length varies with the conversation
+// (9, 47, 48, 49, 96 bytes: around the 48-byte line width of stanza bodies).
+func requestValue(c *pcase) string {
+	n := []int{9, 48, 47, 96, 49}[(len(c.Script)+len(strings.Join(c.Script, "")))%5]
+	return strings.Repeat("v", n)
 }
 
 func sig(c *pcase) string {
@@ -192,6 +202,19 @@ func runCase(run *vk.Run, dir string, c *pcase, w *world.World) {
 			continue
 		}
 		steps = append(steps, step{Send: t, Expect: exp})
+	}
+	burst := (len(c.Script)+len(c.UI.Disp)+len(c.Result))%3 == 0 && len(steps) > 1
+	if burst {
+		// a plugin that does not wait for each reply: everything in one write, replies read afterwards
+		all := ""
+		nexp := 0
+		for _, st := range steps {
+			all += st.Send
+			if st.Expect {
+				nexp++
+			}
+		}
+		steps = []step{{Send: all, Expect: false, Replies: nexp}}
 	}
 	b, _ := json.Marshal(steps)
 	os.WriteFile(filepath.Join(dir, "scripts", id+".json"), b, 0o644)
@@ -260,6 +283,10 @@ func runCase(run *vk.Run, dir string, c *pcase, w *world.World) {
 			p1 = append(p1, e)
 		case "reply":
 			replies = append(replies, replyClass(e))
+			if replyClass(e) == "ok_value" && string(e.Body) != requestValue(c) {
+				run.Violation("C16:reply-value:"+s, fmt.Sprintf("the answer to a request carried %q, the application gave %q", e.Body, requestValue(c)), rp)
+				return
+			}
 		}
 	}
 	if msg := checkPhase1(c.Mode, p1, encoding, hdrStanzas); msg != "" {
